@@ -49,6 +49,8 @@ def run_case(d):
         shutil.rmtree(tmp, ignore_errors=True)
     return d, ok, ' | '.join(out)
 
+RESULTS = {}
+
 def main():
     args = sys.argv[1:]
     jobs = 3
@@ -72,8 +74,17 @@ def main():
         for d, ok, msg in ex.map(run_case, dirs):
             meta = json.load(open(os.path.join(d, 'meta.json')))
             print('%s %-40s expect=%s  %s' % ('OK  ' if ok else 'MISS', os.path.relpath(d, VERIF), meta.get('expect', 'fail'), msg), flush=True)
+            RESULTS[os.path.relpath(d, VERIF)] = {'as_expected': ok, 'expect': meta.get('expect', 'fail'), 'summary': meta.get('summary') or meta.get('what', ''), 'output': msg[:400]}
             bad += 0 if ok else 1
     print('%d cases, %d not as expected' % (len(dirs), bad))
+    # keep the most recent outcome per case for DESIGN.md (tools/seedtable.py)
+    resf = os.path.join(VERIF, 'selftest', 'results.json')
+    try:
+        allres = json.load(open(resf))
+    except Exception:
+        allres = {}
+    allres.update(RESULTS)
+    json.dump(allres, open(resf, 'w'), indent=1, sort_keys=True)
     sys.exit(1 if bad else 0)
 
 main()
